@@ -617,11 +617,79 @@ Qed.
 (* the object built for a type mirrors the type                        *)
 (* ------------------------------------------------------------------ *)
 Lemma mirrors_obj W strict path t cls items :
+  is_mixed W t = false ->
   mirrors W strict path t (PObj cls items) =
   attrs_match (exp_attrs W t) (filter is_attr_item items) &&
   match_members (fun e k x => value_ok W strict (mirrors W strict) path e k x)
                 (absent_ok path) (exp_members W t) items.
-Proof. reflexivity. Qed.
+Proof. intro H. cbn [mirrors]. rewrite H. reflexivity. Qed.
+
+Lemma mirrors_mixed W strict path t cls r :
+  is_mixed W t = true ->
+  mirrors W strict path t (PObj cls (((n_value, false), PNone) :: r)) =
+  attrs_match (exp_attrs W t) (filter is_attr_item r) &&
+  match_members (fun e k x => value_ok W strict (mirrors W strict) path e k x)
+                (absent_ok path) (exp_members W t) r.
+Proof. intro H. cbn [mirrors]. rewrite H, N.eqb_refl. reflexivity. Qed.
+
+(* a Property: "value", then the attributes, in insertion order *)
+Lemma set_key_fresh k v l : ~ In k (map fst l) -> set_key k v l = l ++ [(k, v)].
+Proof.
+  induction l as [|[k' v'] l IH]; cbn; intro H; auto.
+  destruct (key_eqb k k') eqn:E.
+  - apply key_eqb_eq_l in E. subst. exfalso. apply H. left. reflexivity.
+  - rewrite IH; auto.
+Qed.
+
+Definition only_attrs (items : list fitem) : Prop :=
+  forall it, In it items -> match it with FA _ => True | _ => False end.
+
+Lemma process_all_attrs W rec hist items data :
+  only_attrs items -> process_all W rec hist items data = data.
+Proof.
+  revert data. induction items as [|it r IH]; intros data H; auto.
+  cbn. assert (Hit := H it (or_introl eq_refl)). destruct it; try contradiction.
+  unfold process_with. cbn. apply IH. intros x Hx. apply H. right. exact Hx.
+Qed.
+
+Lemma add_attrs_fresh items : forall data,
+  only_attrs items -> NoDup (ordering items) ->
+  (forall k, In k (ordering items) -> ~ In k (map fst data)) ->
+  add_attrs items data = data ++ map attr_entry (flat_map attr_of_item items).
+Proof.
+  induction items as [|it r IH]; intros data Ho Hn Hf; cbn; [rewrite app_nil_r; reflexivity|].
+  assert (Hit := Ho it (or_introl eq_refl)). destruct it as [| |a]; try contradiction.
+  change (ordering (FA a :: r)) with ((a_name a, true) :: ordering r) in Hn, Hf.
+  inversion Hn as [|? ? Hni Hnr]; subst.
+  rewrite set_key_fresh by (apply Hf; left; reflexivity).
+  rewrite IH.
+  - cbn. rewrite <- app_assoc. reflexivity.
+  - intros x Hx. apply Ho. right. exact Hx.
+  - exact Hnr.
+  - intros k Hk Hin. rewrite map_app in Hin. apply in_app_or in Hin as [Hin|[Hin|[]]].
+    + eapply Hf; [right; exact Hk|exact Hin].
+    + cbn in Hin. subst k. contradiction.
+Qed.
+
+Lemma only_attrs_ordering items k : only_attrs items -> In k (ordering items) -> snd k = true.
+Proof.
+  intros Ho Hk. rewrite ordering_flat in Hk. apply in_flat_map in Hk as [it [Hi Hk]].
+  specialize (Ho it Hi). destruct it as [| |a]; try contradiction. destruct Hk as [<-|[]]. reflexivity.
+Qed.
+
+Lemma only_attrs_entries items : only_attrs items -> flat_map entry_of items = [].
+Proof.
+  induction items as [|it r IH]; intro H; auto.
+  assert (Hit := H it (or_introl eq_refl)). destruct it; try contradiction. cbn. apply IH.
+  intros x Hx. apply H. right. exact Hx.
+Qed.
+
+Lemma match_members_attrs present absent l :
+  match_members present absent [] (map attr_entry l) = true.
+Proof. induction l as [|a l IH]; auto. Qed.
+
+Lemma filter_attr_entries l : filter is_attr_item (map attr_entry l) = map attr_entry l.
+Proof. induction l as [|a l IH]; cbn; auto. rewrite IH. reflexivity. Qed.
 
 Lemma nodupb_NoDup l : nodupb l = true -> NoDup l.
 Proof.
@@ -630,9 +698,17 @@ Proof.
   - apply IH. apply andb_true_iff in H as [_ H]. exact H.
 Qed.
 
+Lemma wf_names_mixed W t :
+  wf_names W = true -> In t (w_types W) -> is_mixed W t = true -> only_attrs (all_items W t).
+Proof.
+  unfold wf_names, wf_mixed. intros H Hi Hm. apply andb_true_iff in H as [_ H].
+  rewrite forallb_forall in H. specialize (H t Hi). rewrite Hm in H. cbn in H.
+  rewrite forallb_forall in H. intros it Hit. specialize (H it Hit). destruct it; try discriminate; exact I.
+Qed.
+
 Lemma wf_names_nodup W t : wf_names W = true -> In t (w_types W) -> NoDup (ordering (all_items W t)).
 Proof.
-  unfold wf_names. intros H Hi. rewrite forallb_forall in H. apply nodupb_NoDup. apply H. exact Hi.
+  unfold wf_names. intros H Hi. apply andb_true_iff in H as [H _]. rewrite forallb_forall in H. apply nodupb_NoDup. apply H. exact Hi.
 Qed.
 
 Lemma find_named_complex_in W q t : find_named W q = Some (SComplex t) -> In t (w_types W).
@@ -688,10 +764,30 @@ Lemma members_mirror W strict :
             (PObj cls (iter_items (ordering (all_items W t)) (members W fuel hist t))) = true.
 Proof.
   intros Hwf Hs. induction fuel as [|f IH]; intros hist path t cls Ht Hinv Hrem; [lia|].
-  change (members W (Datatypes.S f) hist t) with (built W (members W f) hist (all_items W t)).
   pose proof (wf_names_nodup W t Hwf Ht) as Hnd.
+  destruct (is_mixed W t) eqn:Emx.
+  { (* a simpleContent type: "value", then the attributes *)
+    pose proof (wf_names_mixed W t Hwf Ht Emx) as Hoa.
+    change (members W (Datatypes.S f) hist t)
+      with (process_all W (members W f) hist (all_items W t) (add_attrs (all_items W t) (init_data W t))).
+    rewrite process_all_attrs by exact Hoa. unfold init_data. rewrite Emx.
+    rewrite add_attrs_fresh; auto.
+    2:{ intros k Hk [Hin|[]]. cbn in Hin. subst k.
+        apply (only_attrs_ordering _ _ Hoa) in Hk. discriminate. }
+    unfold iter_items. cbn [app forallb fst].
+    replace (key_in (n_value, false) (ordering (all_items W t))) with false.
+    2:{ symmetry. destruct (key_in (n_value, false) (ordering (all_items W t))) eqn:E; auto.
+        apply key_in_In in E. apply (only_attrs_ordering _ _ Hoa) in E. discriminate. }
+    cbn [andb]. rewrite mirrors_mixed by exact Emx.
+    rewrite filter_attr_entries, exp_attrs_items, attrs_match_entries.
+    rewrite exp_members_items, (only_attrs_entries _ Hoa). apply match_members_attrs. }
+  change (members W (Datatypes.S f) hist t)
+    with (process_all W (members W f) hist (all_items W t) (add_attrs (all_items W t) (init_data W t))).
+  unfold init_data. rewrite Emx.
+  change (process_all W (members W f) hist (all_items W t) (add_attrs (all_items W t) []))
+    with (built W (members W f) hist (all_items W t)).
   rewrite iter_built by exact Hnd.
-  rewrite mirrors_obj. rewrite filter_attr_items, exp_attrs_items, attrs_match_entries.
+  rewrite mirrors_obj by exact Emx. rewrite filter_attr_items, exp_attrs_items, attrs_match_entries.
   rewrite exp_members_items. cbn [andb]. apply match_items; [exact Hnd|].
   intros it Hit. destruct it as [o i d ch op| |a]; cbn [item_cond]; auto.
   - split.
@@ -800,9 +896,9 @@ Proof.
   induction f1 as [|f1 IH]; intros f2 hist t Ht H1 H2; [lia|].
   destruct f2 as [|f2]; [lia|].
   change (members W (Datatypes.S f1) hist t)
-    with (process_all W (members W f1) hist (all_items W t) (add_attrs (all_items W t) [])).
+    with (process_all W (members W f1) hist (all_items W t) (add_attrs (all_items W t) (init_data W t))).
   change (members W (Datatypes.S f2) hist t)
-    with (process_all W (members W f2) hist (all_items W t) (add_attrs (all_items W t) [])).
+    with (process_all W (members W f2) hist (all_items W t) (add_attrs (all_items W t) (init_data W t))).
   apply process_all_ext. intros it Hit.
   unfold member_value. destruct it as [o i d ch op| |a]; auto.
   destruct ch; auto. destruct (hid_in (o, i, d) hist) eqn:Eh; auto.
